@@ -185,9 +185,11 @@ def check_case(case, ctx):
         # through iteration, in different mixes
         lim = params["iteration_limit"]
         seq1.append(g1.generate())
-        seq1.extend(list(g1))
+        import itertools as _it
+
+        seq1.extend(list(_it.islice(g1, lim + 3)))
         seq1.append(g1.generate())
-        seq1.extend(list(g1))
+        seq1.extend(list(_it.islice(g1, lim + 3)))
         for _ in range(2 * lim + 2):
             seq2.append(g2.generate())
     else:  # explicit sizes, identical calls on both generators
@@ -228,8 +230,10 @@ def check_case(case, ctx):
         # a pass abandoned after its first element does not shorten the next
         for _inst in g3:
             break
-    first = list(g3)
-    second = list(g3)
+    import itertools
+
+    first = list(itertools.islice(g3, lim + 3))
+    second = list(itertools.islice(g3, lim + 3))
     ctx.check(
         len(first) == lim and len(second) == lim and len(g3) == lim,
         "iteration-limit",
